@@ -1,14 +1,16 @@
 from vpdrv import Job
 JOBS = [
     Job('bfd.s2', 'C06/buffered_fd.cpp', 'h_bfd', 'B', defs={'NSTEP': 2}, reach=['bfd'], timeout=900, clause='buffered fd: 2 symbolic steps (same dimensions)'),
-    Job('bfd.s3', 'C06/buffered_fd.cpp', 'h_bfd', 'B', defs={'NSTEP': 3}, reach=['bfd'], timeout=1700, clause='buffered fd: 3 symbolic steps over {send 1-3 bytes, enable, writable, readable, peer writes 1-3 bytes, peer close}; kernel accepts/delivers arbitrary prefixes'),
+] + [
+    Job('bfd.s3.shrink%d' % k, 'C06/buffered_fd.cpp', 'h_bfd', 'B', defs={'NSTEP': 3, 'SHRINK_AT': k}, reach=['bfd'], timeout=1700, clause='buffered fd: 3 symbolic steps over {send 1-3 bytes, enable, writable, readable, peer writes 1-3 bytes, peer close}; kernel accepts/delivers arbitrary prefixes; shrinkSendBuffer/shrinkRecvBuffer ' + ('after step %d' % (k + 1) if k < 3 else 'never')) for k in range(4)
+] + [
     Job('bfd.s4', 'C06/buffered_fd.cpp', 'h_bfd', 'B', defs={'NSTEP': 4}, reach=['bfd'], timeout=3400, tier='thorough', clause='same with 4 steps'),
 ]
 META = dict(
     explanation='Path-wise symbolic execution (engine/symir.py, z3) of the real network/buffered_fd.cpp with util::Buffer and util::Fd on a fake loop with fake fd events. The kernel is a harness-level seam: write() accepts a symbolic prefix of what it is offered or returns EAGAIN, '
                 'readv() delivers a symbolic non-empty prefix of what the peer wrote, 0 after the peer closed and EAGAIN otherwise. A symbolic script of steps (send 1-3 bytes, enable, descriptor writable, descriptor readable, peer writes 1-3 bytes, peer closes), the receive threshold, how much the receive callback consumes and whether the application sends again from inside the send-complete callback are symbolic. '
                 'Ghost streams check after every step: wire ++ queued bytes == bytes accepted by send() (order, nothing lost/duplicated); queued bytes imply an armed write event while enabled (liveness); send-complete only with an empty queue; the receive callback sees exactly the delivered-but-unconsumed bytes in order; read-zero only after all preceding data; finally, with a peer that accepts everything, every sent byte is on the wire.',
-    bounds='3 symbolic steps (4 in the thorough tier), transfers of 1-3 bytes, threshold 0-2',
+    bounds='3 symbolic steps (4 in the thorough tier), transfers of 1-3 bytes, threshold 0-2, one shrink of both queues after any one step (or never)',
     outside='TcpConnection / TcpServer / TcpAcceptor / TcpConnector / TcpClient lifetimes and deferred destruction (kernel socket state machines; not encoded); multi-megabyte transfers (Buffer growth is covered size-generically by C07); write errors other than EAGAIN; bind() to a receiver',
     assumptions=['level-triggered readiness delivered by the harness only while the corresponding fake event is enabled', 'errno is per path (engine model of __errno_location)'],
     trusted_base=['clang++-14 -O1 IR', 'engine/symir.py', 'z3', 'harness/vp_fakes.hpp', 'the kernel seam in harness/C06/buffered_fd.cpp'])
